@@ -570,6 +570,89 @@ func monC06(x *Ctx) {
 			keys = append(keys, k)
 		}
 		sort.Strings(keys)
+		// --- sets of removed attribute types ------------------------------------
+		type tpos struct {
+			l *tlevel
+			a *spec.Attr
+		}
+		var tps []tpos
+		for _, k := range keys {
+			for _, a := range levels[k].ms.Live() {
+				tps = append(tps, tpos{levels[k], a})
+			}
+		}
+		for k := 0; k < nSets/nBase/3 && len(tps) > 2; k++ {
+			size := 2 + x.prf.Int(4, in, fmt.Sprint(k), "tsize")
+			var chosen []tpos
+			for j := 0; j < size; j++ {
+				c := tps[x.prf.Int(len(tps), in, fmt.Sprint(k, j), "tpos")]
+				clash := false
+				for _, o := range chosen {
+					if o.a.Path == c.a.Path {
+						clash = true
+					}
+					for _, ca := range c.l.chain {
+						if ca.Path == o.a.Path {
+							clash = true
+						}
+					}
+					for _, oa := range o.l.chain {
+						if oa.Path == c.a.Path {
+							clash = true
+						}
+					}
+				}
+				if !clash {
+					chosen = append(chosen, c)
+				}
+			}
+			if len(chosen) < 2 {
+				continue
+			}
+			fot := ot
+			wantDump := cleanDump
+			var names []string
+			for _, c := range chosen {
+				fot = pruneType(fot, c.l.chain, c.a.Attr, nil)
+				wantDump = dropTF(wantDump, c.l.chain, c.a.Attr)
+				names = append(names, c.a.Path)
+			}
+			obj := types.Object{AttrTypes: fot.AttrTypes}
+			x.Eval(1)
+			x.Count("to-type-fault-sets", 1)
+			out := x.CopyTo(src, &obj)
+			id := fmt.Sprintf("%s/tset%d", in, k)
+			detail := func() interface{} {
+				return map[string]interface{}{"removed": names, "diags": errorDiags(out.Diags)}
+			}
+			if out.Panic != nil {
+				x.Violate(fmt.Sprintf("to/panic/type-delete-set/%s/%s", panicClass(out.Panic), x.nilEmbedClass(src)), id, "CopyTo panicked on a target with several missing attribute types", map[string]interface{}{"detail": detail(), "panic": panicDetail(out)})
+				continue
+			}
+			errs := errorDiags(out.Diags)
+			for _, c := range chosen {
+				named := false
+				for _, e := range errs {
+					if strings.Contains(e, c.a.Path) && strings.Contains(e, "is missing") {
+						named = true
+					}
+				}
+				if !named {
+					x.Violate("to/diag-missing/set/"+c.a.Class, id, fmt.Sprintf("no diagnostic names the missing attribute type of %s", c.a.Path), detail())
+				}
+			}
+			// equal diagnostics are merged by the framework: one per removed attribute type
+			if len(errs) != len(chosen) {
+				x.Violate(fmt.Sprintf("to/diag-count/set/size=%d", len(chosen)), id, fmt.Sprintf("%d error diagnostics, want %d", len(errs), len(chosen)), detail())
+			}
+			got := dumpTF(obj)
+			for _, c := range chosen {
+				got = dropTF(got, c.l.chain, c.a.Attr)
+			}
+			if d := DiffPaths(wantDump, got); len(d) > 0 {
+				x.Violate("to/collateral/set", id, fmt.Sprintf("other attributes differ from the unfaulted run: %v", d), detail())
+			}
+		}
 		for _, k := range keys {
 			l := levels[k]
 			for _, a := range l.ms.Live() {
